@@ -1,17 +1,241 @@
-import SSV.Model.Persist
+import SSV.Proofs.Persist
+import SSV.Proofs.Debounce
 /-
-C20 — property theorems.
+C20 — A crash or write failure while saving credentials never destroys the store.
+
+Statement: "At every instant during an automatic save of credential changes made through the API, the
+user-key store file on disk is a complete, loadable document holding either the previous or the new user
+set, so that after a crash, kill or disk-full error at any point the server restarts and accepts exactly
+the persisted users. Changes acknowledged before shutdown begins are written before the service stops."
+
+All theorems are about the programs REGENERATED from cred/manager.go (`saveProg?`, `dequeueProg?`,
+decoded from `SSV.Gen.C20`). The first three theorems are the Gen side conditions: the source has the
+temp-file / fsync / rename shape (finding F13 repaired) and looks at the queue once more on cancellation
+(finding F14 repaired). On a tree where `saveToFile` still is `os.WriteFile`, or `dequeueSave` returns
+at once on `ctx.Done()`, they fail, and with them everything below; what is true of those shapes instead
+is proved at the end (`writeFile_…`, `noDrain_…`).
+
+Model: SSV/Model/Persist.lean. `trace doc fault prog 0 r` lists every file-system state a run passes
+through: before every call, after every byte count 0..len of the write, and the final state; with
+`fault = some (j, k)` call number `j` fails (the write: after `k` bytes). `PostCrash fs c`: `c` is what a
+restart may find at the store path after a power loss in state `fs` (any directory binding since the
+start; arbitrary content for a file not fsynced since its last change); `afterKill fs` is what it finds
+after a process kill. `load` is `LoadFromFile` at start-up.
 -/
 namespace SSV.C20
 open SSV.Persist
 
-/-- the regenerated save procedure is the temp-file / sync / rename shape -/
+/-! ## Gen side conditions -/
+
+/-- the regenerated save procedure is: stat, CreateTemp in the same directory, write, chmod, fsync, close,
+rename over the store path; on failure remove the temporary file and return the error -/
 theorem saveProg_is_tempRename : saveProg? = some progTempRename := by decide
 
-/-- the regenerated debounce loop looks at the queue once more on cancellation -/
+/-- the regenerated debounce loop looks at the queue once more when it sees the cancellation -/
 theorem dequeueProg_is_drain : dequeueProg? = some progDrain := by decide
+
+/-- facts the debounce model relies on: 1-slot queue; every API mutator calls `enqueueSave` on its only
+success path (so "acknowledged" implies "announced") -/
+theorem debounce_facts : SSV.Gen.C20.queueCap = 1 ∧ SSV.Gen.C20.mutatorsEnqueue = true := by decide
+
+/-! ## crash safety -/
+
+/-- **crash_safe.** For every old and new store content, at every instant of the save (every prefix of the
+FS program, every byte count of the write) a power loss — and a fortiori a process kill — leaves at the
+store path a file that the start-up loader reads as exactly the old or the new user set. -/
+theorem crash_safe {U : Type} (C : Codec U) (hC : C.Lawful) (old new : U)
+    (prog : List Stmt) (hp : saveProg? = some prog) :
+    ∀ fs ∈ trace (C.ser new) none prog 0 (startRun (initFS (C.ser old))),
+      ∀ c, PostCrash fs c → load C c = some old ∨ load C c = some new := by
+  have : prog = progTempRename := by
+    have := hp.symm.trans saveProg_is_tempRename; exact Option.some.inj this
+  subst this
+  intro fs hfs c hc
+  rcases trace_tempRename_safe (C.ser old) (C.ser new) none fs hfs c hc with h | h
+  · left; rw [h]; exact load_ser C hC old
+  · right; rw [h]; exact load_ser C hC new
+
+/-- the same for a process kill (kernel keeps running: the loader sees the current directory and page cache) -/
+theorem kill_safe {U : Type} (C : Codec U) (hC : C.Lawful) (old new : U)
+    (prog : List Stmt) (hp : saveProg? = some prog) (fault : Fault) :
+    ∀ fs ∈ trace (C.ser new) fault prog 0 (startRun (initFS (C.ser old))),
+      load C (afterKill fs) = some old ∨ load C (afterKill fs) = some new := by
+  have : prog = progTempRename := by
+    have := hp.symm.trans saveProg_is_tempRename; exact Option.some.inj this
+  subst this
+  intro fs hfs
+  rcases kill_tempRename (C.ser old) (C.ser new) fault fs hfs with h | h
+  · left; rw [h]; exact load_ser C hC old
+  · right; rw [h]; exact load_ser C hC new
+
+/-- **enospc_safe.** The same when call number `j` of the save returns an error instead of the machine
+crashing (the write: after any `k` bytes — ENOSPC, EFBIG, EIO; also a failing CreateTemp, chmod, fsync,
+close, rename): at every instant of the run, including its error path and a crash on that path, the store
+is the old or the new set; and when the run is over the store holds the new set iff the save reported
+success, otherwise still the old one. -/
+theorem enospc_safe {U : Type} (C : Codec U) (hC : C.Lawful) (old new : U)
+    (prog : List Stmt) (hp : saveProg? = some prog) (j k : Nat) :
+    (∀ fs ∈ trace (C.ser new) (some (j, k)) prog 0 (startRun (initFS (C.ser old))),
+      ∀ c, PostCrash fs c → load C c = some old ∨ load C c = some new) ∧
+    (let r := finalRun (C.ser new) (some (j, k)) none prog 0 (startRun (initFS (C.ser old)))
+     (r.err = false → load C (afterKill r.fs) = some new) ∧
+     (r.err = true → load C (afterKill r.fs) = some old)) := by
+  have : prog = progTempRename := by
+    have := hp.symm.trans saveProg_is_tempRename; exact Option.some.inj this
+  subst this
+  refine ⟨?_, ?_⟩
+  · intro fs hfs c hc
+    rcases trace_tempRename_safe (C.ser old) (C.ser new) (some (j, k)) fs hfs c hc with h | h
+    · left; rw [h]; exact load_ser C hC old
+    · right; rw [h]; exact load_ser C hC new
+  · have h := final_tempRename (C.ser old) (C.ser new) (some (j, k))
+    refine ⟨fun he => ?_, fun he => ?_⟩
+    · rw [h.1 he]; exact load_ser C hC new
+    · rw [h.2 he]; exact load_ser C hC old
+
+/-- a save without any fault ends with the new set at the store path and reports success -/
+theorem save_completes {U : Type} (C : Codec U) (hC : C.Lawful) (old new : U)
+    (prog : List Stmt) (hp : saveProg? = some prog) :
+    let r := finalRun (C.ser new) none none prog 0 (startRun (initFS (C.ser old)))
+    r.err = false ∧ load C (afterKill r.fs) = some new := by
+  have : prog = progTempRename := by
+    have := hp.symm.trans saveProg_is_tempRename; exact Option.some.inj this
+  subst this
+  have h := final_tempRename (C.ser old) (C.ser new) none
+  have he : (finalRun (C.ser new) none none progTempRename 0 (startRun (initFS (C.ser old)))).err = false := by
+    simp [finalRun, progTempRename, enabled, faultAt, execOp, execOk, writeBytes, upd, startRun, initFS]
+  exact ⟨he, by rw [h.1 he]; exact load_ser C hC new⟩
+
+/-! ### the hypotheses are satisfiable, the quantifiers range over something -/
+
+/-- a lawful codec (unary numbers terminated by 0) for which strict prefixes do not load -/
+def toyCodec : Codec Nat :=
+  { ser := fun n => List.replicate n 1 ++ [0]
+    decode := fun b => if b.getLast? = some 0 then some (b.length - 1) else none
+    empty := 0 }
+
+theorem toy_lawful : toyCodec.Lawful :=
+  ⟨by intro u; simp [toyCodec], by intro u; simp [toyCodec]⟩
+
+example : saveProg? = some progTempRename := saveProg_is_tempRename
+/-- the trace of a concrete save has 12 + 3·… states; among them one with a half-written temporary file -/
+example : ({ inodes := [⟨[1, 1, 0], true⟩, ⟨[1, 1], false⟩], target := some 0, thist := [some 0], tmps := [(0, 1)], next := 1 } : FS)
+    ∈ trace (toyCodec.ser 3) none progTempRename 0 (startRun (initFS (toyCodec.ser 2))) := by decide
+example : PostCrash (initFS [1, 0]) (some [1, 0]) := ⟨some 0, by simp [initFS], ⟨[1, 0], true⟩, rfl, [1, 0], rfl, fun _ => rfl⟩
+/-- a dirty file really can come back as anything -/
+example : PostCrash { inodes := [⟨[1, 0], false⟩], target := some 0, thist := [some 0], tmps := [], next := 0 } (some [7, 7, 7]) :=
+  ⟨some 0, by simp, ⟨[1, 0], false⟩, rfl, [7, 7, 7], rfl, by simp⟩
+example : (finalRun (toyCodec.ser 3) (some (3, 2)) none progTempRename 0 (startRun (initFS (toyCodec.ser 2)))).err = true := by decide
+
+/-! ## acknowledged changes are saved before Stop returns -/
+
+/-- **ack_saved_before_stop.** In every reachable state of the debounce transition system — every interleaving
+of API calls (mutate, then enqueue, then return), the cancellation, and the saver goroutine, with every choice
+a `select` with several ready alternatives can make, whatever the phase (queued / cooling down / saving) in
+which the cancellation arrives — once the saver goroutine has returned (`wg.Wait()` in `Stop` is released)
+the file holds at least every change acknowledged before the cancellation. -/
+theorem ack_saved_before_stop (prog : List Node) (hp : dequeueProg? = some prog)
+    (s : DState) (h : Reach prog s) (hx : s.exited = true) : s.acked ≤ s.disk := by
+  have : prog = progDrain := by
+    have := hp.symm.trans dequeueProg_is_drain; exact Option.some.inj this
+  subst this
+  obtain ⟨_, _, _, hex, _, h4, _⟩ := dinv_reach h
+  exact (h4 (hex hx)).2
+
+/-- the goroutine returns only after the cancellation (no spontaneous exit that would end saving) -/
+theorem exit_only_after_cancel (prog : List Node) (hp : dequeueProg? = some prog)
+    (s : DState) (h : Reach prog s) (hx : s.exited = true) : s.cancelled = true := by
+  have : prog = progDrain := by
+    have := hp.symm.trans dequeueProg_is_drain; exact Option.some.inj this
+  subst this
+  obtain ⟨_, _, _, hex, _, h4, _⟩ := dinv_reach h
+  exact (h4 (hex hx)).1
+
+/-- non-vacuity: a run in which a change is acknowledged, the shutdown arrives during the cool-down, the
+goroutine saves and exits -/
+theorem stop_reachable : ∃ s, Reach progDrain s ∧ s.exited = true ∧ s.acked = 1 ∧ s.disk = 1 := by
+  have r1 := Reach.step Reach.init (Step.mutate (prog := progDrain) dinit)
+  have r2 := Reach.step r1 (Step.enqueue _ 1 (by simp [dinit]))
+  have r3 := Reach.step r2 (Step.sel _ [(.queue, 1), (.ctx, 5)] .queue 1 rfl rfl (by simp) rfl)
+  have r4 := Reach.step r3 (Step.cancel _)
+  have r5 := Reach.step r4 (Step.sel _ [(.timer, 2), (.ctx, 2)] .ctx 2 rfl rfl (by simp) rfl)
+  have r6 := Reach.step r5 (Step.sel _ [(.queue, 3), (.dflt, 3)] .dflt 3 rfl rfl (by simp) rfl)
+  have r7 := Reach.step r6 (Step.save _ 0 rfl rfl)
+  have r8 := Reach.step r7 (Step.sel _ [(.queue, 1), (.ctx, 5)] .ctx 5 rfl rfl (by simp) rfl)
+  have r9 := Reach.step r8 (Step.sel _ [(.queue, 1), (.dflt, 4)] .dflt 4 rfl rfl (by simp) rfl)
+  have r10 := Reach.step r9 (Step.ret _ rfl rfl)
+  exact ⟨_, r10, rfl, rfl, rfl⟩
+
+/-! ## the shapes of the pinned tree (findings F13, F14): what fails, and what still holds -/
+
+/-- **F13 witness.** With `os.WriteFile` (truncate, then write) the run passes through a state in which the
+store path names an empty file — after a kill and after a power loss alike. The loader then "succeeds" with
+the empty store: neither the old nor the new user set unless one of them is empty. -/
+theorem writeFile_not_crash_safe {U : Type} (C : Codec U) (old new : U) (ho : old ≠ C.empty) (hn : new ≠ C.empty) :
+    ¬ (∀ fs ∈ trace (C.ser new) none progWriteFile 0 (startRun (initFS (C.ser old))),
+        ∀ c, PostCrash fs c → load C c = some old ∨ load C c = some new) := by
+  intro h
+  obtain ⟨fs, hfs, _, hpc⟩ := writeFile_passes_empty (C.ser old) (C.ser new)
+  rcases h fs hfs _ hpc with h | h <;> simp [load] at h
+  · exact ho h.symm
+  · exact hn h.symm
+
+/-- **F13, every byte count.** With `os.WriteFile`, for every `j` the run passes through a state in which
+the store path names exactly the first `j` bytes of the new document; under the JSON hypothesis
+`PrefixUnloadable` such a file does not load (start-up aborts), except for the document without its final
+newline. -/
+theorem writeFile_cut_unloadable {U : Type} (C : Codec U) (hP : C.PrefixUnloadable) (old new : U) (j : Nat)
+    (h0 : 0 < j) (hj : j < (C.ser new).length) :
+    ∃ fs ∈ trace (C.ser new) none progWriteFile 0 (startRun (initFS (C.ser old))),
+      afterKill fs = some ((C.ser new).take j) ∧
+      (load C (afterKill fs) = none ∨ load C (afterKill fs) = some new) := by
+  obtain ⟨fs, hfs, hk⟩ := writeFile_passes_prefix (C.ser old) (C.ser new) j (Nat.le_of_lt hj)
+  refine ⟨fs, hfs, hk, ?_⟩
+  rw [hk]
+  have hne : (C.ser new).take j ≠ [] := by
+    intro h
+    have h1 : ((C.ser new).take j).length = 0 := by rw [h]; rfl
+    rw [List.length_take] at h1; omega
+  have hne2 : (C.ser new).take j ≠ C.ser new := by
+    intro h
+    have h1 : ((C.ser new).take j).length = (C.ser new).length := by rw [h]
+    rw [List.length_take] at h1; omega
+  have := hP new _ (List.take_prefix j (C.ser new)) hne2 hne
+  cases ht : (C.ser new).take j with
+  | nil => exact absurd ht hne
+  | cons b bs => simp only [load]; rw [← ht]; exact this
+
+/-- **crash_safe_partial for the truncate-then-write shape**: what does hold — under a process kill or a
+failing call the store path holds the old document or a prefix of the new one, never unrelated bytes. -/
+theorem writeFile_crash_safe_partial (o n : Bytes) (fault : Fault) :
+    ∀ fs ∈ trace n fault progWriteFile 0 (startRun (initFS o)),
+      afterKill fs = some o ∨ ∃ p, p <+: n ∧ afterKill fs = some p :=
+  writeFile_kill_prefix o n fault
+
+/-- **F14 witness.** Without the final look at the queue: change acknowledged, context cancelled, the first
+`select` takes `ctx.Done()`, the goroutine returns — `Stop` returns with the change not on disk. -/
+theorem noDrain_loses_acknowledged_change : ∃ s, Reach progNoDrain s ∧ s.exited = true ∧ s.disk < s.acked := by
+  have r1 := Reach.step Reach.init (Step.mutate (prog := progNoDrain) dinit)
+  have r2 := Reach.step r1 (Step.enqueue _ 1 (by simp [dinit]))
+  have r3 := Reach.step r2 (Step.cancel _)
+  have r4 := Reach.step r3 (Step.sel _ [(.queue, 1), (.ctx, 4)] .ctx 4 rfl rfl (by simp) rfl)
+  have r5 := Reach.step r4 (Step.ret _ rfl rfl)
+  exact ⟨_, r5, rfl, by decide⟩
 
 end SSV.C20
 
 #print axioms SSV.C20.saveProg_is_tempRename
 #print axioms SSV.C20.dequeueProg_is_drain
+#print axioms SSV.C20.debounce_facts
+#print axioms SSV.C20.crash_safe
+#print axioms SSV.C20.kill_safe
+#print axioms SSV.C20.enospc_safe
+#print axioms SSV.C20.save_completes
+#print axioms SSV.C20.toy_lawful
+#print axioms SSV.C20.ack_saved_before_stop
+#print axioms SSV.C20.exit_only_after_cancel
+#print axioms SSV.C20.stop_reachable
+#print axioms SSV.C20.writeFile_not_crash_safe
+#print axioms SSV.C20.writeFile_cut_unloadable
+#print axioms SSV.C20.writeFile_crash_safe_partial
+#print axioms SSV.C20.noDrain_loses_acknowledged_change
